@@ -221,6 +221,55 @@ def component_order_consistency(rep: Report, ix):
         rep.violation("C19.component-naming", f"{g.ref}::name-table", f"get_axis_index no longer resolves component names in the order axes + axes_symmetric: {txt}")
 
 
+# ----------------------------------------------------------------------------
+# (c) component algebra: dot / outer / transpose / basis change
+# ----------------------------------------------------------------------------
+def component_algebra(rep: Report, ix):
+    """every implementation of a product / transposition / basis change places the k-th
+    component of the result where the defining index formula puts it"""
+    from .. import tensoralg as ta
+
+    outs = ta.all_outcomes(ix)
+    by_site: dict[tuple, list] = {}
+    for o in outs:
+        by_site.setdefault((o.site, o.role), []).append(o)
+    for (site, role), group in sorted(by_site.items()):
+        rep.saw("tensor-algebra implementations", f"{site} :: {role}")
+        decided = [o for o in group if o.raised is None]
+        bad = [o for o in decided if (o.mismatches and o.mismatches[0][0] != "out-not-filled") or o.uninit]
+        rep.oblige(f"{site}: {role} ({len(decided)} scenarios: dims/ranks/out/conjugate)", not bad, [o.scenario for o in bad[:3]])
+        if bad:
+            o = bad[0]
+            if o.mismatches and o.mismatches[0][0] == "shape":
+                what = f"result has shape {o.mismatches[0][1]}, the defining formula gives {o.mismatches[0][2]}"
+            elif o.mismatches:
+                idx, got, exp = o.mismatches[0]
+                what = f"entry {tuple(idx)} (component indices first, then grid cell) is `{got}`, the defining formula gives `{exp}`"
+            else:
+                what = "part of the result is never written (uninitialised memory is returned)"
+            rep.violation(
+                "C19.component-algebra",
+                f"{site}::{role}",
+                f"{site} does not compute {role}: in scenario {o.scenario} {what}; {len(bad)} of {len(decided)} scenarios differ",
+                line=o.line,
+                extra={"scenarios": [b.scenario for b in bad[:6]]},
+            )
+        if not decided:
+            rep.note(f"{site}: every scenario of {role} ends in an exception ({group[0].raised}); whether a route may raise is decided by C03")
+    rep.floor("tensor-algebra (site, formula) pairs interpreted", len(by_site), 17)
+    if len(rep.samples) < 12:
+        o = next((o for o in outs if o.route == "numba" and o.raised is None and o.role.startswith("out[j]")), None)
+        if o is not None:
+            rep.sample({"site": o.site, "formula": o.role, "scenario": o.scenario, "entry[0,0]": str(o.value[(0,) * o.value.ndim])})
+    # transpose() / trace() route to the conversions checked above
+    t = ix.func("pde/fields/tensorial.py", "Tensor2Field.transpose")
+    calls = [n for n in ast.walk(t.node) if isinstance(n, ast.Call) and isinstance(n.func, ast.Attribute) and n.func.attr == "convert"]
+    ok = len(calls) == 1 and calls[0].args and const_value(calls[0].args[0]) == "transposed" and dotted(calls[0].func.value) == "self"
+    rep.oblige("Tensor2Field.transpose = self.convert('transposed')", bool(ok), [ast.unparse(c) for c in calls])
+    if not ok:
+        rep.violation("C19.component-algebra", f"{t.ref}::route", f"Tensor2Field.transpose no longer routes to self.convert('transposed') (found {[ast.unparse(c) for c in calls]})", line=t.node.lineno)
+
+
 def check(tier: str) -> Report:
     rep = Report("C19", tier, "proof", "sympy identities on extracted coordinate maps (orthonormality, handedness, basis = normalised Jacobian); index-space typing (component order vs coordinate-system order)")
     rep.explanation = (
@@ -228,7 +277,11 @@ def check(tier: str) -> Report:
         "coordinate symbols; identities are decided modulo the Pythagorean ideals (Groebner reduction). (b) The component order COMP of each "
         "grid class (axes + symmetric axes) and the order COORD of its coordinate system are computed from the class attributes; every "
         "subscript of a COORD container by an index produced by get_axis_index and every einsum that contracts the component axis of a "
-        "component array with a basis_rotation matrix is reported when COMP != COORD for some grid class (CylindricalSymGrid)."
+        "component array with a basis_rotation matrix is reported when COMP != COORD for some grid class (CylindricalSymGrid). "
+        "(c) Every implementation of dot products (all four rank combinations), outer products, transposition and the basis change to Cartesian "
+        "components -- field methods, numpy and numba back-end factories, coordinate classes -- is interpreted on arrays of distinct symbols "
+        "(abstract interpretation with small concrete shapes, pdelint/npsem.py) with and without `out`, with and without conjugation; each "
+        "computed entry must equal the defining index formula (out[i,j] = a[i]*b[j], out[j] = sum_i a[i]*b[i,j], ...)."
     )
     ix = get_index()
     check_bases(rep, ix)
@@ -242,7 +295,9 @@ def check(tier: str) -> Report:
         for rule, construct, msg, line in findings:
             rep.violation(rule, construct, msg, line=line)
     component_order_consistency(rep, ix)
+    component_algebra(rep, ix)
     rep.assumptions += [
+        "tensor algebra is interpreted for (dim, grid shape) in {(2,(3,)), (3,(2,)), (3,(2,4))}: the operations are written with einsum ellipses / whole-slice stores and are uniform in the grid axes; numpy indexing, broadcasting and einsum semantics as documented",
         "theta in (0, pi), r > 0, sigma in (0, pi): chart domains of the coordinate systems",
         "index-space typing covers values produced by get_axis_index and parameters named `components`; other ways of producing component indices are not tracked",
     ]
